@@ -229,6 +229,20 @@ ADDENDA["C10"] = "Round 6: repeated and many @mixin directives on fields and fra
 ADDENDA["C11"] = ("Round 6: a constructor family (headers= / http_client= in every combination, two clients sharing one http client, the client building its own http client) and response bodies "
                   "declared JSON that are not GraphQL responses, both under six-variant agreement.")
 ADDENDA["C12"] = "Round 6: falsy-member families (error objects with empty / falsy members alone, before and after ordinary errors; falsy data values with and without errors)."
+ROUND7 = {
+    "C01": "Round 7: a fragment-overlap family (a spread next to direct selections of keys the fragment also selects) and a non-null abstract field with conditional type-specific selections.",
+    "C04": "Round 7: files_to_include entries that are not Python files.",
+    "C05": "Round 7: the fragment-overlap family; leaf fields (incl. leading-underscore names) with snake-casing off.",
+    "C06": "Round 7: explicit-null defaults of list-typed fields and inner lists.",
+    "C08": "Round 7: a spread-order family (two fragments and the operation spreading ordered subsets of the same two leaf fragments in every combination of orders x three namings).",
+    "C09": "Round 7: type names whose case-sensitive / case-insensitive / snake-case orders differ; the behaviour harness builds arguments from the schema.",
+    "C10": "Round 7: interface field conflicts under custom operations; absolute imports of the generated package next to third-party imports with the target inside and outside the working directory.",
+    "C14": "Round 7: the explicit-state search over histories no longer trusts its state abstraction below depth 2 (every history of length < 2 is expanded), the state snapshot covers every module / class level container, cache and the client's attributes; same-argument history pairs; nested union / interface fields with arguments.",
+    "C17": "Round 7: comment modes of other TOML types; every misuse of the codegen-only @mixin directive.",
+    "C19": "Round 7: a transport fault on the first introspection request (every request sent carries the configured headers and TLS flag); URLs that httpx refuses, parsed by the real URL parser.",
+}
+for _k, _v in ROUND7.items():
+    ADDENDA[_k] = (ADDENDA.get(_k, "") + " " + _v).strip()
 for _k, _v in ADDENDA.items():
     CHECKS[_k]["text"] = CHECKS[_k]["text"] + " " + _v
 
